@@ -44,7 +44,7 @@ def canon(v):
 
 SCENARIOS = {
     # name: (kind, workers, functor, [(items, chunk_size)])
-    "fmap_small": ("fmap", 2, small, [(10, 3), (0, 1), (1, 5), (7, 1)]),
+    "fmap_small": ("fmap", 2, small, [(10, 3), (0, 1), (1, 5), (7, 1), (6, 2 ** 70), (3, 2 ** 63)]),
     "fmap_big_results": ("fmap", 2, big, [(8, 1), (5, 2)]),
     "fmap_none_and_falsy": ("fmap", 3, small, [(9, 2)]),
     "fmap_falsy_results": ("fmap", 2, falsy, [(6, 1)]),
